@@ -41,3 +41,171 @@ fn adapter_rx_timeout_covers() {
     }
     kani::assert(matches!(RxMode::from(LorawanRxMode::Continuous, bb), RxMode::Continuous), "C17: continuous stays continuous");
 }
+
+// ------------------------------------------------------------------------------------------------
+// C14-H4 / C18: the LoRaWAN adapter over the trait-level chip model of lora_h.rs.  One PhyRxTx
+// call from an arbitrary driver/chip state coupled by I-phy, two fault positions, IRQ script.
+// ------------------------------------------------------------------------------------------------
+use crate::verif_kani_lora_phy_lora_h::{any_coupled, any_pp, chip, faulted, post, ChipMode, ModelChip};
+use crate::verif_kani_lora_phy_mock::{block_on, MockDelay};
+use crate::mod_params::RadioMode;
+use lorawan_device::async_device::radio::RfConfig;
+
+type Radio = LorawanRadio<ModelChip, MockDelay, 22, 0>;
+
+fn any_radio() -> Radio {
+    let lora = any_coupled();
+    let have: bool = kani::any();
+    LorawanRadio {
+        lora,
+        rx_pkt_params: if have { Some(any_pp()) } else { None },
+        rx_window_lead_time: kani::any(),
+        rx_window_buffer: kani::any(),
+    }
+}
+fn any_rf() -> RfConfig {
+    let bb = BaseBandModulationParams::new(any_sf(), any_bw(), any_cr());
+    let t = bb.symbols_to_ms(1000);
+    kani::assume(t > 0);
+    unsafe { T_SYM.v = t; }
+    RfConfig { frequency: kani::any(), bb, max_payload_len: kani::any() }
+}
+
+//@h id=adapter_tx props=C14 tier=quick build=phy cost=90 timeout=900
+//@bounds LorawanRadio::tx from every coupled driver/chip state: any (SF, BW, CR), frequency, power (i8), payload length 0..=8, IRQ script of 3 outcomes, two fault positions
+//@encodes LorawanRadio::tx, LoRa::prepare_for_tx, LoRa::tx
+//@assumes trait-level chip model (lora_h.rs)
+#[kani::proof]
+#[kani::unwind(8)]
+fn adapter_tx() {
+    let mut r = any_radio();
+    let cfg = TxConfig { pw: kani::any(), rf: any_rf() };
+    let buf = [0u8; 8];
+    let n: usize = kani::any();
+    kani::assume(n <= 8);
+    let res = block_on(r.tx(cfg, &buf[..n]));
+    post(&r.lora, "adapter_tx");
+    let c = chip();
+    if res.is_ok() {
+        kani::assert(c.mode == ChipMode::Standby && r.lora.radio_mode == RadioMode::Standby, "C14: after a completed transmission the chip is in standby and the driver knows it");
+    } else if !faulted() {
+        kani::assert(c.mode == ChipMode::Standby && r.lora.radio_mode == RadioMode::Standby, "C14: after a failed or timed-out transmission the chip is in standby and the driver knows it");
+    }
+    kani::cover!(res.is_ok(), "adapter transmission completed");
+    kani::cover!(res.is_err() && !faulted(), "adapter transmission timed out");
+}
+
+//@h id=adapter_setup_rx props=C14 tier=quick build=phy cost=60 timeout=900
+//@bounds LorawanRadio::setup_rx from every coupled state: any (SF, BW, CR), frequency, Single{ms <= 1000} or Continuous, two fault positions
+//@encodes LorawanRadio::setup_rx, LoRa::prepare_for_rx, lorawan_radio::RxMode::from
+//@assumes trait-level chip model; delay_in_symbols replaced by its contract (C16 E2 job)
+#[kani::proof]
+#[kani::stub(BaseBandModulationParams::delay_in_symbols, stub_delay_in_symbols)]
+#[kani::unwind(8)]
+fn adapter_setup_rx() {
+    let mut r = any_radio();
+    let single: bool = kani::any();
+    let ms: u32 = kani::any();
+    kani::assume(ms <= 1000);
+    let cfg = RxConfig { rf: any_rf(), mode: if single { LorawanRxMode::Single { ms } } else { LorawanRxMode::Continuous } };
+    let had = r.rx_pkt_params.is_some();
+    let res = block_on(r.setup_rx(cfg));
+    post(&r.lora, "adapter_setup_rx");
+    let c = chip();
+    if res.is_ok() {
+        kani::assert(r.rx_pkt_params.is_some(), "C14: a prepared reception keeps its packet parameters for rx_single/rx_continuous");
+        let ok_mode = if single { matches!(r.lora.radio_mode, RadioMode::Receive(RxMode::Single(_))) } else { r.lora.radio_mode == RadioMode::Receive(RxMode::Continuous) };
+        kani::assert(ok_mode, "C14: setup_rx prepares the reception mode that was asked for");
+        kani::assert(c.init && c.irq && c.modulation && c.packet && c.freq, "C14: setup_rx programs everything a reception depends on");
+    }
+    let _ = had;
+    kani::cover!(res.is_ok() && single, "single-shot window prepared");
+}
+
+fn rx_common(r: &mut Radio, continuous: bool) -> u8 {
+    let before = chip().calls;
+    let mode0 = r.lora.radio_mode;
+    let have = r.rx_pkt_params.is_some();
+    let buf0: [u8; 16] = kani::any();
+    let mut buf = buf0;
+    // Ok(Some(n)) = packet of n bytes, Ok(None) = RxTimeout
+    let res: Result<Option<usize>, Error> = if continuous {
+        block_on(r.rx_continuous(&mut buf)).map(|(n, _)| Some(n))
+    } else {
+        block_on(r.rx_single(&mut buf)).map(|s| match s { RxStatus::Rx(n, _) => Some(n), RxStatus::RxTimeout => None })
+    };
+    post(&r.lora, "adapter_rx");
+    let c = chip();
+    if !have {
+        kani::assert(matches!(res, Err(Error::NoRxParams)), "C14: reception without setup_rx is refused with NoRxParams");
+        kani::assert(c.calls == before, "C14: a refused reception must not command the chip");
+    } else if !matches!(mode0, RadioMode::Receive(_)) {
+        kani::assert(matches!(res, Err(Error::Radio(RadioError::InvalidRadioMode))), "C14: reception in the wrong mode is refused with InvalidRadioMode");
+        kani::assert(c.calls == before, "C14: a refused reception must not command the chip");
+    } else {
+        match res {
+            Ok(Some(n)) => {
+                kani::assert(c.rx_fetched && n == c.rx_n as usize, "C18: the adapter reports exactly the length of the packet fetched from the chip");
+                if c.rx_k < 16 {
+                    let want = if c.rx_k < n { c.rx_byte } else { buf0[c.rx_k] };
+                    kani::assert(buf[c.rx_k] == want, "C18: the adapter hands the MAC exactly the fetched bytes and leaves the rest of the buffer untouched");
+                }
+            }
+            Ok(None) => {
+                kani::assert(!continuous, "C14: continuous reception has no time-out result");
+                if !faulted() && mode0 != RadioMode::Receive(RxMode::Continuous) {
+                    kani::assert(c.mode == ChipMode::Standby && r.lora.radio_mode == RadioMode::Standby, "C14: after a timed-out window the chip is in standby and the driver knows it");
+                }
+                if c.rx_k < 16 && !c.rx_fetched {
+                    kani::assert(buf[c.rx_k] == buf0[c.rx_k], "C18: a timed-out window leaves the buffer untouched");
+                }
+            }
+            Err(_) => {
+                if !faulted() && mode0 != RadioMode::Receive(RxMode::Continuous) {
+                    kani::assert(c.mode == ChipMode::Standby && r.lora.radio_mode == RadioMode::Standby, "C14: after a failed reception the chip is in standby and the driver knows it");
+                }
+            }
+        }
+    }
+    match res { Ok(Some(16)) => 3, Ok(Some(_)) => 0, Ok(None) => 1, Err(_) => 2 }
+}
+
+//@h id=adapter_rx_single props=C14,C18 tier=quick build=phy cost=90 timeout=900
+//@bounds LorawanRadio::rx_single from every coupled state with/without prepared packet parameters, IRQ script of 3 outcomes, two fault positions, 16-byte buffer, watched byte index symbolic
+//@encodes LorawanRadio::rx_single, LoRa::rx
+//@assumes trait-level chip model; chip-level get_rx_payload contract (rx_payload_* harnesses)
+#[kani::proof]
+#[kani::unwind(8)]
+fn adapter_rx_single() {
+    let mut r = any_radio();
+    let k = rx_common(&mut r, false);
+    kani::cover!(k == 3, "adapter: full buffer received");
+    kani::cover!(k == 1, "adapter: window timed out");
+}
+//@h id=adapter_rx_continuous props=C14,C18 tier=quick build=phy cost=90 timeout=900
+//@bounds LorawanRadio::rx_continuous, as adapter_rx_single
+//@encodes LorawanRadio::rx_continuous, LoRa::rx
+//@assumes as adapter_rx_single
+#[kani::proof]
+#[kani::unwind(8)]
+fn adapter_rx_continuous() {
+    let mut r = any_radio();
+    let k = rx_common(&mut r, true);
+    kani::cover!(k == 3, "adapter: full buffer received");
+}
+//@h id=adapter_low_power props=C14 tier=quick build=phy cost=30 timeout=900
+//@bounds LorawanRadio::low_power from every coupled state, two fault positions
+//@encodes LorawanRadio::low_power, LoRa::sleep
+//@assumes trait-level chip model
+#[kani::proof]
+#[kani::unwind(8)]
+fn adapter_low_power() {
+    let mut r = any_radio();
+    let was_asleep = r.lora.radio_mode == RadioMode::Sleep;
+    let res = block_on(r.low_power());
+    post(&r.lora, "adapter_low_power");
+    if res.is_ok() {
+        kani::assert(r.lora.radio_mode == RadioMode::Sleep && (was_asleep || chip().mode == ChipMode::Sleep), "C14: low_power puts chip and driver to sleep");
+        kani::assert(was_asleep || r.lora.cold_start, "C14: the cold sleep of low_power is remembered so that everything is programmed again");
+    }
+}
